@@ -11,7 +11,7 @@ import (
 func init() {
 	register(&Rule{
 		Name:     "NONFINITE",
-		Doc:      "every call of json.EncodeFloat64 with a non-constant argument in a JSON emitter (packages conv/t2j, conv/p2j, thrift/annotation) is dominated by the false edges of math.IsNaN and math.IsInf tests of that value (through float conversions): non-finite values, for which the formatter writes nothing, never reach it",
+		Doc:      "every call of json.EncodeFloat64 with a non-constant argument in a JSON emitter (packages conv/t2j, conv/p2j, thrift/annotation) is dominated by the false edges of math.IsNaN and math.IsInf tests of that value (through float conversions; the IsInf tests cover both signs: sign argument 0, or +1 and -1): non-finite values, for which the formatter writes nothing, never reach it",
 		Configs:  "NP",
 		Floor:    map[string]int{"N": 3, "P": 3},
 		Controls: 1,
@@ -53,7 +53,7 @@ func runNonFinite(rc *RuleCtx) {
 				}
 				rc.Examined++
 				root := floatRoot(c.Call.Args[1])
-				nan, inf := false, false
+				nan, infPos, infNeg := false, false, false
 				for _, cd := range controllingIfs(b) {
 					cond, neg := condKey(cd.cond)
 					tc, ok := cond.(*ssa.Call)
@@ -71,10 +71,24 @@ func runNonFinite(rc *RuleCtx) {
 					case "IsNaN":
 						nan = true
 					case "IsInf":
-						inf = true
+						// IsInf(f, 0) covers both infinities; IsInf(f, +1) / IsInf(f, -1) only one of them
+						sign := int64(0)
+						if len(tc.Call.Args) > 1 {
+							if k, isC := constInt(tc.Call.Args[1]); isC {
+								sign = k
+							} else {
+								continue
+							}
+						}
+						if sign >= 0 {
+							infPos = true
+						}
+						if sign <= 0 {
+							infNeg = true
+						}
 					}
 				}
-				good := nan && inf
+				good := nan && infPos && infNeg
 				rc.verdict(good, fn, "EncodeFloat64", c.Pos(), map[bool]string{
 					true:  "NaN and ±Inf are excluded before the float is formatted",
 					false: "a float from the input reaches json.EncodeFloat64 without a math.IsNaN / math.IsInf test: for NaN and ±Inf the formatter writes nothing and the converter returns malformed JSON (`{\"d\":}`) with a nil error"}[good], true)
